@@ -277,7 +277,7 @@ def _ident_value_benign(m, f, e, depth):
     passed on as such, be stored and be compared for equality; it may not
     become node text, file content, a container element, a key or an
     operand of an ordering."""
-    if depth > 3:
+    if depth > 8:
         return False, 'flow too long to follow'
     # the enclosing text-building expression
     t = e
